@@ -689,3 +689,400 @@ Lemma ex_runs :
   run 30 ex_prog = Some ([EvOut (PInt 12); EvOut (PInt 9)], ROk PUnit) /\
   run 30 (rename 3 99 ex_prog) = Some ([EvOut (PInt 12); EvOut (PInt 9)], ROk PUnit).
 Proof. split; vm_compute; reflexivity. Qed.
+
+(* ---------------------------------------------------------------------------------------------------------- *)
+(* wrap-in-dbg *)
+
+(* e' is e with dbg(..) wrapped around some sub-expressions, never two new wrappers directly around each other *)
+Inductive dle_e : expr -> expr -> Prop :=
+| DE_wrap e e' : dle_c e e' -> dle_e e (EDbg e')
+| DE_core e e' : dle_c e e' -> dle_e e e'
+with dle_c : expr -> expr -> Prop :=
+| DC_int z : dle_c (EInt z) (EInt z)
+| DC_bool b : dle_c (EBool b) (EBool b)
+| DC_var u x : dle_c (EVar u x) (EVar u x)
+| DC_bin op l l' r r' : dle_e l l' -> dle_e r r' -> dle_c (EBin op l r) (EBin op l' r')
+| DC_call f f' a a' : dle_e f f' -> dle_es a a' -> dle_c (ECall f a) (ECall f' a')
+| DC_fun ps b b' : dle_b b b' -> dle_c (EFun ps b) (EFun ps b')
+| DC_if c c' t t' e e' : dle_e c c' -> dle_b t t' -> dle_b e e' -> dle_c (EIf c t e) (EIf c' t' e')
+| DC_dbg e e' : dle_e e e' -> dle_c (EDbg e) (EDbg e')
+| DC_print e e' : dle_e e e' -> dle_c (EPrint e) (EPrint e')
+with dle_es : exprs -> exprs -> Prop :=
+| DES_nil : dle_es ENil ENil
+| DES_cons e e' r r' : dle_e e e' -> dle_es r r' -> dle_es (ECons e r) (ECons e' r')
+with dle_b : block -> block -> Prop :=
+| DB_nil : dle_b BNil BNil
+| DB_cons s s' r r' : dle_s s s' -> dle_b r r' -> dle_b (BCons s r) (BCons s' r')
+with dle_s : stmt -> stmt -> Prop :=
+| DS_let d x e e' : dle_e e e' -> dle_s (SLet d x e) (SLet d x e')
+| DS_assign u x e e' : dle_e e e' -> dle_s (SAssign u x e) (SAssign u x e')
+| DS_expr e e' : dle_e e e' -> dle_s (SExpr e) (SExpr e')
+| DS_while c c' b b' : dle_e c c' -> dle_b b b' -> dle_s (SWhile c b) (SWhile c' b').
+
+Lemma dle_refl :
+  (forall e, dle_c e e) /\ (forall es, dle_es es es) /\ (forall b, dle_b b b) /\ (forall s, dle_s s s).
+Proof.
+  apply syntax_mutind; intros; constructor; auto; apply DE_core; auto.
+Qed.
+
+Lemma dle_e_refl e : dle_e e e.
+Proof. apply DE_core. apply dle_refl. Qed.
+
+(* the wrap functions produce related syntax *)
+Lemma wrap_dle :
+  (forall e path, dle_e e (wrap_expr path e)) /\
+  (forall es j path, dle_es es (wrap_exprs j path es)) /\
+  (forall b j path, dle_b b (wrap_block j path b)) /\
+  (forall s path, dle_s s (wrap_stmt path s)).
+Proof.
+  destruct dle_refl as [Rc [Res [Rb Rs]]].
+  assert (Re : forall e, dle_e e e) by (intros; apply DE_core; auto).
+  assert (Wc : forall e e', dle_e e e' -> e' = e \/ True) by auto.
+  apply syntax_mutind; intros.
+  - destruct path; simpl; [apply DE_wrap|apply DE_core]; auto.
+  - destruct path; simpl; [apply DE_wrap|apply DE_core]; auto.
+  - destruct path; simpl; [apply DE_wrap|apply DE_core]; auto.
+  - destruct path as [|i rest]; simpl; [apply DE_wrap; auto|]. apply DE_core.
+    destruct i; constructor; auto.
+  - destruct path as [|i rest]; simpl; [apply DE_wrap; auto|]. apply DE_core.
+    destruct i; constructor; auto.
+  - destruct path as [|i rest]; simpl; [apply DE_wrap; auto|]. apply DE_core. constructor; auto.
+  - destruct path as [|i rest]; simpl; [apply DE_wrap; auto|]. apply DE_core.
+    destruct i as [|[|[|i]]]; try (constructor; auto; fail); destruct rest; constructor; auto.
+  - destruct path as [|i rest]; simpl; [apply DE_wrap; auto|]. apply DE_core. constructor; auto.
+  - destruct path as [|i rest]; simpl; [apply DE_wrap; auto|]. apply DE_core. constructor; auto.
+  - simpl. constructor.
+  - simpl. destruct j; constructor; auto.
+  - simpl. constructor.
+  - simpl. destruct j; constructor; auto.
+  - simpl. constructor; auto.
+  - simpl. constructor; auto.
+  - simpl. constructor; auto.
+  - simpl. destruct path as [|[|[|i]] rest]; try (constructor; auto; fail).
+    destruct rest; constructor; auto.
+Qed.
+
+(* event lists: o' is o with debug lines inserted *)
+Inductive ext : list event -> list event -> Prop :=
+| ext_nil : ext [] []
+| ext_same ev o o' : ext o o' -> ext (ev :: o) (ev :: o')
+| ext_dbg s o o' : ext o o' -> ext o (EvDbg s :: o').
+
+Lemma ext_refl o : ext o o.
+Proof. induction o; constructor; auto. Qed.
+
+Lemma ext_app a a' c c' : ext a a' -> ext c c' -> ext (a ++ c) (a' ++ c').
+Proof. induction 1; simpl; intros; auto; constructor; auto. Qed.
+
+Lemma ext_stdout o o' : ext o o' -> stdout_of o = stdout_of o'.
+Proof.
+  induction 1; simpl; auto. destruct ev; simpl; congruence.
+Qed.
+
+Lemma ext_stderr_length o o' : ext o o' -> length (stderr_of o) <= length (stderr_of o').
+Proof.
+  induction 1; simpl; auto; try lia. destruct ev; simpl; lia.
+Qed.
+
+Inductive dv : value -> value -> Prop :=
+| DV_int z : dv (VInt z) (VInt z)
+| DV_bool b : dv (VBool b) (VBool b)
+| DV_unit : dv VUnit VUnit
+| DV_fun f : dv (VFun f) (VFun f)
+| DV_clo r r' ps b b' : denv r r' -> dle_b b b' -> dv (VClo r ps b) (VClo r' ps b')
+with denv : env -> env -> Prop :=
+| DN_nil : denv [] []
+| DN_cons fr fr' r r' : dframe fr fr' -> denv r r' -> denv (fr :: r) (fr' :: r')
+with dframe : frame -> frame -> Prop :=
+| DF_nil : dframe [] []
+| DF_cons x d v v' fr fr' : dv v v' -> dframe fr fr' -> dframe ((x, d, v) :: fr) ((x, d, v') :: fr').
+
+Lemma dv_show v v' : dv v v' -> show v = show v'.
+Proof. destruct 1; reflexivity. Qed.
+
+Lemma dframe_lookup fr fr' x : dframe fr fr' ->
+  match lookup_frame fr x with
+  | Some v => exists v', lookup_frame fr' x = Some v' /\ dv v v'
+  | None => lookup_frame fr' x = None
+  end.
+Proof. induction 1; simpl; auto. destruct (Nat.eqb x x0); eauto. Qed.
+
+Lemma denv_lookup r r' x : denv r r' ->
+  match lookup r x with
+  | Some v => exists v', lookup r' x = Some v' /\ dv v v'
+  | None => lookup r' x = None
+  end.
+Proof.
+  induction 1 as [|fr fr' r r' Hfr Hr IH]; simpl; auto.
+  pose proof (dframe_lookup fr fr' x Hfr) as HF.
+  destruct (lookup_frame fr x).
+  - destruct HF as [v' [-> Hv]]. eauto.
+  - rewrite HF. exact IH.
+Qed.
+
+Lemma dframe_assign fr fr' x v v' : dframe fr fr' -> dv v v' ->
+  match assign_frame fr x v with
+  | Some fr1 => exists fr1', assign_frame fr' x v' = Some fr1' /\ dframe fr1 fr1'
+  | None => assign_frame fr' x v' = None
+  end.
+Proof.
+  induction 1 as [|y d w w' fr fr' Hw Hfr IH]; simpl; intros Hv; auto.
+  destruct (Nat.eqb x y).
+  - eexists; split; eauto. constructor; auto.
+  - specialize (IH Hv). destruct (assign_frame fr x v).
+    + destruct IH as [fr1' [-> H1]]. eexists; split; eauto. constructor; auto.
+    + rewrite IH. reflexivity.
+Qed.
+
+Lemma denv_assign r r' x v v' : denv r r' -> dv v v' ->
+  match assign r x v with
+  | Some r1 => exists r1', assign r' x v' = Some r1' /\ denv r1 r1'
+  | None => assign r' x v' = None
+  end.
+Proof.
+  induction 1 as [|fr fr' r r' Hfr Hr IH]; simpl; intros Hv; auto.
+  pose proof (dframe_assign fr fr' x v v' Hfr Hv) as HF.
+  destruct (assign_frame fr x v).
+  - destruct HF as [fr1' [-> H1]]. eexists; split; eauto. constructor; auto.
+  - rewrite HF. specialize (IH Hv). destruct (assign r x v).
+    + destruct IH as [r1' [-> H1]]. eexists; split; eauto. constructor; auto.
+    + rewrite IH. reflexivity.
+Qed.
+
+Lemma dbind_params ps : forall vs vs' acc acc',
+  Forall2 dv vs vs' -> dframe acc acc' -> dframe (bind_params ps vs acc) (bind_params ps vs' acc').
+Proof.
+  induction ps as [|[d x] ps IH]; simpl; intros vs vs' acc acc' Hvs Hacc; auto.
+  destruct Hvs; auto. apply IH; auto. constructor; auto.
+Qed.
+
+Lemma Forall2_len' {A B} (R : A -> B -> Prop) l l' : Forall2 R l l' -> length l = length l'.
+Proof. induction 1; simpl; auto. Qed.
+
+Lemma denv_tl r r' : denv r r' -> denv (tl r) (tl r').
+Proof. destruct 1; simpl; auto. constructor. Qed.
+
+Lemma denv_push r r' x d v v' : denv r r' -> dv v v' -> denv (push_binding x d v r) (push_binding x d v' r').
+Proof.
+  intros Hr Hv. destruct Hr; simpl.
+  - constructor; [|constructor]. constructor; auto. constructor.
+  - constructor; auto. constructor; auto.
+Qed.
+
+Definition dfun (fd fd' : fundef) : Prop :=
+  fd_name fd' = fd_name fd /\ fd_id fd' = fd_id fd /\ fd_params fd' = fd_params fd /\ dle_b (fd_body fd) (fd_body fd').
+
+Lemma dfun_find funs funs' g : Forall2 dfun funs funs' ->
+  match find_fun funs g with
+  | Some fd => exists fd', find_fun funs' g = Some fd' /\ dfun fd fd'
+  | None => find_fun funs' g = None
+  end.
+Proof.
+  induction 1 as [|fd fd' l l' Hfd Hl IH]; simpl; auto.
+  destruct Hfd as [Hn Hrest]. rewrite Hn. destruct (Nat.eqb g (fd_name fd)); auto.
+  exists fd'. split; auto. split; auto.
+Qed.
+
+Definition orel_d {A} (R : A -> A -> Prop) (m m' : outcome A) : Prop :=
+  match m, m' with
+  | OutOfFuel, _ => True
+  | Done o r a, Done o' r' a' => ext o o' /\ denv r r' /\ R a a'
+  | Fail o k, Fail o' k' => ext o o' /\ k = k'
+  | _, _ => False
+  end.
+
+Lemma orel_d_bind {A B} (R : A -> A -> Prop) (R2 : B -> B -> Prop) m m' k k' :
+  orel_d R m m' ->
+  (forall r r' a a', denv r r' -> R a a' -> orel_d R2 (k r a) (k' r' a')) ->
+  orel_d R2 (bind m k) (bind m' k').
+Proof.
+  intros Hm Hk. destruct m as [o r a|o e|]; destruct m' as [o' r' a'|o' e'|]; simpl in *; try tauto.
+  - destruct Hm as [Ho [Hr Ha]]. specialize (Hk _ _ _ _ Hr Ha).
+    destruct (k r a); destruct (k' r' a'); simpl in *; try tauto.
+    + destruct Hk as [Ho2 H]. split; auto using ext_app.
+    + destruct Hk as [Ho2 H]. split; auto using ext_app.
+Qed.
+
+Lemma orel_d_mono {A} (R : A -> A -> Prop) (m m1 m2 : outcome A) :
+  orel_d R m m1 -> (m1 <> OutOfFuel -> m2 = m1) -> orel_d R m m2.
+Proof.
+  intros H Hm. destruct m; simpl in *; auto; destruct m1; simpl in *; try tauto; rewrite Hm by discriminate; auto.
+Qed.
+
+Lemma orel_d_emit m m' :
+  orel_d dv m m' -> orel_d dv m (bind m' (fun r v => Done [EvDbg (show v)] r v)).
+Proof.
+  destruct m; destruct m'; simpl; try tauto.
+  intros [Ho [Hr Hv]]. repeat split; auto.
+  rewrite <- (app_nil_r out). apply ext_app; auto. constructor. constructor.
+Qed.
+
+Section DbgSim.
+  Variables funs funs' : list fundef.
+  Hypothesis Hfuns : Forall2 dfun funs funs'.
+
+  Definition dsim_e f g := forall r r' e e', denv r r' -> dle_e e e' ->
+    orel_d dv (eval_expr funs f r e) (eval_expr funs' g r' e').
+  Definition dsim_c f g := forall r r' e e', denv r r' -> dle_c e e' ->
+    orel_d dv (eval_expr funs f r e) (eval_expr funs' g r' e').
+  Definition dsim_a f g := forall r r' e e', denv r r' -> dle_es e e' ->
+    orel_d (Forall2 dv) (eval_args funs f r e) (eval_args funs' g r' e').
+  Definition dsim_b f g := forall r r' e e', denv r r' -> dle_b e e' ->
+    orel_d dv (eval_block funs f r e) (eval_block funs' g r' e').
+  Definition dsim_s f g := forall r r' e e', denv r r' -> dle_s e e' ->
+    orel_d dv (exec_stmt funs f r e) (exec_stmt funs' g r' e').
+
+  Lemma dsim_call f g r2 r2' cenv cenv' ps body body' vs vs' :
+    dsim_b f g -> denv r2 r2' -> denv cenv cenv' -> dle_b body body' -> Forall2 dv vs vs' ->
+    orel_d dv
+      (bind (eval_block funs f (bind_params ps vs [] :: cenv) body) (fun _ v => Done [] r2 v))
+      (bind (eval_block funs' g (bind_params ps vs' [] :: cenv') body') (fun _ v => Done [] r2' v)).
+  Proof.
+    intros IH Hr2 Hc Hb Hvs. eapply orel_d_bind.
+    - apply IH; auto. constructor; auto. apply dbind_params; auto. constructor.
+    - intros; simpl. repeat split; auto. constructor.
+  Qed.
+
+  Lemma dbinop op a a' c c' : dv a a' -> dv c c' ->
+    match eval_binop op a c, eval_binop op a' c' with
+    | Some v, Some v' => dv v v'
+    | None, None => True
+    | _, _ => False
+    end.
+  Proof.
+    destruct 1; destruct 1; simpl; auto.
+    - destruct op; simpl; auto; constructor.
+    - destruct op; simpl; auto; constructor.
+  Qed.
+
+  Lemma dsim_core f g :
+    dsim_e f g -> dsim_a f g -> dsim_b f g -> dsim_s f g ->
+    dsim_c (S f) (S g) /\ dsim_a (S f) (S g) /\ dsim_b (S f) (S g) /\ dsim_s (S f) (S g).
+  Proof.
+    intros IHe IHa IHb IHs. repeat split.
+    - intros r r' e e' Hr He. destruct He; simpl.
+      + repeat split; auto; constructor.
+      + repeat split; auto; constructor.
+      + pose proof (denv_lookup r r' x Hr) as HL. destruct (lookup r x).
+        * destruct HL as [v' [-> Hv]]. simpl. repeat split; auto. constructor.
+        * rewrite HL. pose proof (dfun_find funs funs' x Hfuns) as HF. destruct (find_fun funs x).
+          -- destruct HF as [fd' [-> _]]. simpl. repeat split; auto; constructor.
+          -- rewrite HF. simpl. split; auto. constructor.
+      + eapply orel_d_bind; [apply IHe; auto|]. intros r1 r1' a a' Hr1 Ha.
+        eapply orel_d_bind; [apply IHe; auto|]. intros r2 r2' c c' Hr2 Hc.
+        pose proof (dbinop op _ _ _ _ Ha Hc) as Hop.
+        destruct (eval_binop op a c), (eval_binop op a' c'); simpl; try contradiction; repeat split; auto; constructor.
+      + eapply orel_d_bind; [apply IHe; auto|]. intros r1 r1' vf vf' Hr1 Hvf.
+        eapply orel_d_bind; [apply IHa; auto|]. intros r2 r2' vs vs' Hr2 Hvs.
+        pose proof (Forall2_len' _ _ _ Hvs) as Hlen.
+        destruct Hvf; simpl; try (split; [constructor|reflexivity]).
+        * pose proof (dfun_find funs funs' f1 Hfuns) as HF. destruct (find_fun funs f1) as [fd|].
+          -- destruct HF as [fd' [-> [_ [_ [Hps Hb]]]]]. rewrite Hps, <- Hlen.
+             destruct (Nat.eqb (length (fd_params fd)) (length vs)); simpl; [|split; [constructor|reflexivity]].
+             apply dsim_call; auto. constructor.
+          -- rewrite HF. simpl. split; [constructor|reflexivity].
+        * rewrite <- Hlen. destruct (Nat.eqb (length ps) (length vs)); simpl; [|split; [constructor|reflexivity]].
+          apply dsim_call; auto.
+      + repeat split; auto; constructor; auto.
+      + eapply orel_d_bind; [apply IHe; auto|]. intros r1 r1' vc vc' Hr1 Hvc.
+        destruct Hvc as [?|bb| | |]; simpl; try (split; [constructor|reflexivity]). destruct bb.
+        * eapply orel_d_bind; [apply IHb; auto; constructor; auto; constructor|].
+          intros; simpl. repeat split; auto using denv_tl. constructor.
+        * eapply orel_d_bind; [apply IHb; auto; constructor; auto; constructor|].
+          intros; simpl. repeat split; auto using denv_tl. constructor.
+      + eapply orel_d_bind; [apply IHe; auto|]. intros r1 r1' v v' Hr1 Hv. simpl.
+        rewrite (dv_show _ _ Hv). repeat split; auto. apply ext_refl.
+      + eapply orel_d_bind; [apply IHe; auto|]. intros r1 r1' v v' Hr1 Hv. simpl.
+        rewrite (dv_show _ _ Hv). repeat split; auto. apply ext_refl. constructor.
+    - intros r r' e e' Hr He. destruct He; simpl.
+      + repeat split; auto; constructor.
+      + eapply orel_d_bind; [apply IHa; auto|]. intros r1 r1' vs vs' Hr1 Hvs.
+        eapply orel_d_bind; [apply IHe; auto|]. intros r2 r2' v v' Hr2 Hv. simpl. repeat split; auto; constructor; auto.
+    - intros r r' e e' Hr He. destruct He as [|s s' rest rest' Hs Hrest]; simpl.
+      + repeat split; auto; constructor.
+      + destruct Hrest as [|s2 s2' rest2 rest2' Hs2 Hrest2].
+        * apply IHs; auto.
+        * eapply orel_d_bind; [apply IHs; auto|]. intros r1 r1' a a' Hr1 Ha. apply IHb; auto. constructor; auto.
+    - intros r r' e e' Hr He. destruct He; simpl.
+      + eapply orel_d_bind; [apply IHe; auto|]. intros r1 r1' v v' Hr1 Hv. simpl.
+        repeat split; auto using denv_push; constructor.
+      + eapply orel_d_bind; [apply IHe; auto|]. intros r1 r1' v v' Hr1 Hv.
+        pose proof (denv_assign r1 r1' x v v' Hr1 Hv) as HA. destruct (assign r1 x v).
+        * destruct HA as [ra' [-> Hra]]. simpl. repeat split; auto; constructor.
+        * rewrite HA. simpl. split; [constructor|reflexivity].
+      + apply IHe; auto.
+      + eapply orel_d_bind; [apply IHe; auto|]. intros r1 r1' vc vc' Hr1 Hvc.
+        destruct Hvc as [?|bb| | |]; simpl; try (split; [constructor|reflexivity]). destruct bb.
+        * eapply orel_d_bind; [apply IHb; auto; constructor; auto; constructor|].
+          intros r2 r2' a a' Hr2 Ha. apply IHs; auto using denv_tl. constructor; auto.
+        * repeat split; auto; constructor.
+  Qed.
+End DbgSim.
+
+Section DbgAll.
+  Variables funs funs' : list fundef.
+  Hypothesis Hfuns : Forall2 dfun funs funs'.
+
+  Lemma dsim_all f :
+    dsim_e funs funs' f (2 * f) /\ dsim_a funs funs' f (2 * f) /\ dsim_b funs funs' f (2 * f) /\ dsim_s funs funs' f (2 * f).
+  Proof.
+    induction f as [|f [IHe [IHa [IHb IHs]]]].
+    - repeat split; intros r r' e e' Hr He; simpl; auto.
+    - destruct (dsim_core funs funs' Hfuns f (2 * f) IHe IHa IHb IHs) as [Cc [Ca [Cb Cs]]].
+      replace (2 * S f) with (S (S (2 * f))) by lia.
+      destruct (eval_mono_step funs' (S (2 * f))) as [Me [Ma [Mb Ms]]].
+      repeat split; intros r r' e e' Hr He.
+      + destruct He as [e e' Hc|e e' Hc].
+        * change (eval_expr funs' (S (S (2 * f))) r' (EDbg e'))
+            with (bind (eval_expr funs' (S (2 * f)) r' e') (fun r1 v => Done [EvDbg (show v)] r1 v)).
+          apply orel_d_emit. apply Cc; auto.
+        * eapply orel_d_mono; [apply Cc; eauto|]. intros H. apply Me; auto.
+      + eapply orel_d_mono; [apply Ca; eauto|]. intros H. apply Ma; auto.
+      + eapply orel_d_mono; [apply Cb; eauto|]. intros H. apply Mb; auto.
+      + eapply orel_d_mono; [apply Cs; eauto|]. intros H. apply Ms; auto.
+  Qed.
+End DbgAll.
+
+Lemma dfun_refl_list funs : Forall2 dfun funs funs.
+Proof.
+  induction funs; constructor; auto. repeat split; auto. apply dle_refl.
+Qed.
+
+Lemma dfun_wrap_nth k j path : forall funs, Forall2 dfun funs (wrap_nth_fun k j path funs).
+Proof.
+  induction k as [|k IH]; intros [|fd funs]; simpl; try constructor; auto using dfun_refl_list.
+  - repeat split; auto. simpl. apply wrap_dle.
+  - repeat split; auto. apply dle_refl.
+Qed.
+
+(* If the program ends (with a value or a Garden error) having produced the events out, then the program with any
+   sub-expression wrapped in dbg(..) ends the same way; its events are out with debug lines inserted, so stdout is the
+   same and stderr only gains lines. *)
+Theorem dbg_transparent_thm : forall (pos : position) (p : program) (fuel : nat) (out : list event) (res : result),
+  run fuel p = Some (out, res) ->
+  exists out', run (2 * fuel) (wrap_dbg pos p) = Some (out', res)
+               /\ ext out out' /\ stdout_of out' = stdout_of out
+               /\ length (stderr_of out) <= length (stderr_of out').
+Proof.
+  intros [[k j] path] [funs main] fuel out res Hrun.
+  assert (HF : Forall2 dfun funs (fst (wrap_dbg (k, j, path) (funs, main)))).
+  { destruct k; simpl; auto using dfun_refl_list, dfun_wrap_nth. }
+  assert (HB : dle_b main (snd (wrap_dbg (k, j, path) (funs, main)))).
+  { destruct k; simpl; [apply dle_refl|apply wrap_dle]. }
+  destruct (dsim_all funs _ HF fuel) as [_ [_ [Hb _]]].
+  assert (Hr : denv [[]] [[]]) by (constructor; constructor).
+  specialize (Hb [[]] [[]] main _ Hr HB).
+  unfold run in *. cbn [fst snd] in Hrun.
+  destruct (eval_block funs fuel [[]] main) as [o r v|o e|]; try discriminate;
+    destruct (eval_block (fst (wrap_dbg (k, j, path) (funs, main))) (2 * fuel) [[]] (snd (wrap_dbg (k, j, path) (funs, main))))
+      as [o' r' v'|o' e'|]; simpl in Hb; try contradiction; inversion Hrun; subst.
+  - destruct Hb as [Ho [_ Hv]]. exists o'. rewrite (dv_show _ _ Hv).
+    repeat split; auto using ext_stderr_length. symmetry. apply ext_stdout; auto.
+  - destruct Hb as [Ho ->]. exists o'. repeat split; auto using ext_stderr_length. symmetry. apply ext_stdout; auto.
+Qed.
+
+(* non-vacuity on the example program of RefactorProps: wrapping the captured `y` inside the closure body *)
+Lemma ex_dbg_runs :
+  run 30 ex_prog = Some ([EvOut (PInt 12); EvOut (PInt 9)], ROk PUnit) /\
+  run 60 (wrap_dbg (Some 0, 2, [0; 1]) ex_prog) = Some ([EvOut (PInt 12); EvDbg (PInt 6); EvOut (PInt 9)], ROk PUnit).
+Proof. split; vm_compute; reflexivity. Qed.
